@@ -435,7 +435,9 @@ def apply_params(sig, posargs, pokargs, varargs, kwoargs, varkwargs,
     if varkwargs:
         parameters.append(varkwargs)
     sig = sig.replace(parameters=parameters, _stacklevel=_stacklevel + 1)
-    if sources is not None:
+    if sources is None:
+        sig.sources = copy_sources(sig.sources)
+    else:
         sig = Signature._upgrade(sig, function, sources, _stacklevel=1)
         sig.sources = sources
     return sig
